@@ -323,7 +323,7 @@ func init() {
 	register(&Check{
 		ID: "C12", Level: "exploration",
 		Rule:  "histories of generate/use/replay/clear/regenerate across 3-4 accounts and 3 browsers against a copying storer (a forgotten Save is visible), directed templates (OTP add x1-6/use/replay from same and other browser/clear/regenerate; recovery use/replay/regenerate; remove-and-enrol-again / add-the-other-kind followed by a code of the replaced batch; SMS code replay; same TOTP code twice; a login whose After(EventAuth) is answered by — or fails in — the application's own listener, followed by a replay) plus random walks whose candidate strings include spent, cleared, other accounts', never-issued and empty values and stored hashes. Ledger: every OTP shown by /otp/add, every recovery code seeded or shown, every SMS in the outbox, every accepted TOTP code. Oracle: an accepted value must be live in the ledger; after acceptance its stored form is gone (recovery list shrunk by exactly one, no remaining hash verifies it; OTP hash absent; sms_secret deleted by the same session write) and the Save precedes the session write that puts uid; <=5 OTPs per account after every request; with the replay-protecting user type the same TOTP code twice in a row is rejected. distinct_nontrivial = distinct (flow, value class, #OTPs held, session state, outcome, mode, replay protection) signatures.",
-		Units: func(t string) int { return tierN(t, 500, 20000) },
+		Units: func(t string) int { return tierN(t, 500, 8000) },
 		Run: func(c *RunCtx, unit int) {
 			r := Rng(c.Seed, "C12", unit)
 			cfg := randomCfg(r, "auth", "otp", "logout")
